@@ -192,3 +192,26 @@ def after_earlier_calls(L0, L, m):
     s2 = bytearray(s1)
     swap_multiples(s2, m)
     check(s2 == x, "after earlier calls: swap_multiples is an involution")
+
+
+def through_memoryview(L, m):
+    """the primitives work in place on any writable buffer: a memoryview over the caller's bytearray gives the same
+    result as the bytearray itself (and leaves the result in the caller's buffer)"""
+    x = sym_bytes("x", L)
+    for which in range(4):
+        direct = bytearray(x)
+        buf = bytearray(x)
+        view = memoryview(buf)
+        if which == 0:
+            interleave(direct)
+            interleave(view)
+        elif which == 1:
+            deinterleave(direct)
+            deinterleave(view)
+        elif which == 2:
+            flip_msb(direct)
+            flip_msb(view)
+        else:
+            swap_multiples(direct, m)
+            swap_multiples(view, m)
+        check(buf == direct, "through a memoryview: same result as on the bytearray (primitive %d)" % which)
